@@ -509,19 +509,13 @@ class EndpointResponseHandlerGenerator:
             if default_response.content and strategy.return_type != "None":
                 self._write_strategy_based_return(writer, strategy, context)
             else:
-                context.add_import(f"{context.core_package_name}.exceptions", "HTTPError")
-                writer.write_line(
-                    'raise HTTPError(response=response, message="Default error", status_code=response.status_code)'
-                )
+                self._write_raise_by_status_range(writer, context, "Default error")
             writer.dedent()
         else:
             # Final catch-all
             writer.write_line("case _:")
             writer.indent()
-            context.add_import(f"{context.core_package_name}.exceptions", "HTTPError")
-            writer.write_line(
-                'raise HTTPError(response=response, message="Unhandled status code", status_code=response.status_code)'
-            )
+            self._write_raise_by_status_range(writer, context, "Unhandled status code")
             writer.dedent()
 
         writer.dedent()  # End of match statement
@@ -531,6 +525,25 @@ class EndpointResponseHandlerGenerator:
         context.add_import("typing", "NoReturn")
         writer.write_line("raise RuntimeError('Unexpected code path')  # pragma: no cover")
         writer.write_line("")  # Add a blank line for readability
+
+    def _write_raise_by_status_range(self, writer: CodeWriter, context: RenderContext, message: str) -> None:
+        """Write the raise for a status code without a case of its own.
+
+        The exception class follows the range of the status code, as in the bundled transport:
+        ClientError for 400-499, ServerError for 500-599 and the base HTTPError otherwise.
+        """
+        args = f'response=response, message="{message}", status_code=response.status_code'
+        for error_class_name in ("HTTPError", "ClientError", "ServerError"):
+            context.add_import(f"{context.core_package_name}.exceptions", error_class_name)
+        writer.write_line("if 400 <= response.status_code < 500:")
+        writer.indent()
+        writer.write_line(f"raise ClientError({args})")
+        writer.dedent()
+        writer.write_line("if 500 <= response.status_code < 600:")
+        writer.indent()
+        writer.write_line(f"raise ServerError({args})")
+        writer.dedent()
+        writer.write_line(f"raise HTTPError({args})")
 
     def _write_strategy_based_return(
         self,
